@@ -419,6 +419,7 @@ func c25Max(m *mon.M, p pair, variant int, r *rand.Rand) {
 		case rerr != nil && declared > maxPacket:
 			m.Count("payload_le_maxpacket_unreadable:"+cls, 1)
 			m.Violation("payload-le-maxpacket-unreadable", map[string]any{
+				"kex": kex.witness(), "start_seq": start, "payload": "pseudo-random, see replay (case index)",
 				"cipher": p.cipher, "mac": p.mac, "payload_len": L, "maxPacket": maxPacket, "declared_packet_length": declared,
 				"reader_err": rerr.Error(),
 				"observed":   "the real writer accepts the payload and emits a packet (valid under sshref) whose packet_length exceeds maxPacket; the real reader keyed alike refuses it"})
